@@ -182,6 +182,8 @@ EVENT_RULES = [
     (r"^Events::send_on_get$", "send_on_get"),
     (r"^Events::send", "send<other>"),
     (r"^ValuelessProof::into_proof$", "into_proof"),
+    (r"^Vec::<(common::)?node::Node>::pop$", "pop_root"),
+    (r"^MerkleTree::required_node$", "required_node"),
     (r"^Hypercore::(\w+)", None),  # name = Hypercore::<method>
 ]
 PRODUCERS = {"BlockStore::append_batch", "BlockStore::put", "BlockStore::clear", "Oplog::append_changeset",
@@ -190,6 +192,8 @@ STORAGE_EVENTS_PREFIX = ("W", "R")
 
 # branch events: (regex over the resolved place/callee text of a switch operand, label)
 BRANCH_RULES = [
+    (r"Gt\((move )?Vec::<(common::)?node::Node>::len\(.*Vec::<u64>::len\(", "roots>full"),
+    (r"Gt\((move )?Vec::<(common::)?node::Node>::len\(", "roots>i"),
     (r"verify_upgrade\(.*as Continue\)\.0: bool", "upgrade_consumed_block_root"),
     (r"Option::<Vec<u8>>::is_none\(", "value.is_none"),
     (r"^\(?move \(Lt\(copy _2, move \(copy \(\(\(\(\*_1\)\.\d+: oplog::header::Header\)\.\d+: oplog::header::HeaderHints\)\.\d+: u64\)", "start<contig"),
@@ -718,6 +722,14 @@ def specs():
                 (2, "value.is_none:0"): 5, (5, "into_proof"): 6, (1, "into_proof"): 6},
                ok={4, 6}, err={0, 1, 2}, alpha=[])),
     ]
+    # ---- C05 (and C02 replay): truncate removes EVERY stale root before it fetches the new one
+    S["C05"] = [
+        ("merkle_tree::truncate", "truncate: a root is popped only under the guard `roots.len() > i` (resp. `> full_roots.len()` in the final trim), and after each pop the guard is evaluated again before the new root is looked up -- all stale roots go, not just one",
+         Table({(0, "roots>i:nz"): 1, (1, "pop_root"): 2, (2, "roots>i:nz"): 1, (2, "roots>i:0"): 0, (0, "roots>i:0"): 0, (0, "required_node"): 0,
+                (0, "roots>full:nz"): 3, (3, "pop_root"): 4, (4, "roots>full:nz"): 3, (4, "roots>full:0"): 0, (0, "roots>full:0"): 0},
+               ok={0}, err={0}, alpha=[])),
+    ]
+    S["C02"].append(("merkle_tree::truncate", "replay on open: " + S["C05"][0][1], S["C05"][0][2]))
     # ---- C04: the block's root stays "to be compared with the replica's own node" unless the upgrade consumed it
     S["C04"] = [
         ("merkle_tree::verify_proof", "verify_proof: the pending comparison of the block/hash root with the replica's own node is dropped (set to None) only on the branch where verify_upgrade reports that the upgrade consumed that root -- a proof that merely carries a valid upgrade does not switch the block check off",
